@@ -1,6 +1,44 @@
-From Coq Require Import List.
-From PG Require Import Graph.MGraph C11.Model.
-(* placeholder until the proofs land *)
-Theorem c11_placeholder : forall g x y I R, minsep_model g x y I R = minsep_model g x y I R.
-Proof. reflexivity. Qed.
-Print Assumptions c11_placeholder.
+(* C11 -- Minimal m-separator search is sound, complete and minimal. Statements: C11/Spec.v; model: C11/Model.v *)
+From Coq Require Import List Arith.
+From PG Require Import Base.ListSet Graph.MGraph Graph.MSep C01.Model C12.Model C12.Enum C11.Model C11.Spec
+  C11.Proofs C11.Bounded_3 C11.Bounded_4 C11.Refuted.
+Import ListNotations.
+
+(* unbounded (all graphs): the returned set contains I, lies inside R, avoids x and y, and passed the model of m_separated
+   (C01) on the anterior graph of {x,y} ∪ I with the whole returned set as conditioning set *)
+Theorem minsep_sound_partial : forall g x y I R Z, incl I R -> ~ In x R -> ~ In y R ->
+  minsep_model g x y I R = Some Z ->
+  incl I Z /\ incl Z R /\ ~ In x Z /\ ~ In y Z /\
+  msep_model (ant_graph g (x :: y :: I)) [x] [y] Z = Some true.
+Proof. exact C11.Proofs.minsep_sound_partial. Qed.
+Print Assumptions minsep_sound_partial.
+
+Theorem is_minsep_sound_partial : forall g x y Z I R,
+  is_minsep_model g x y Z I R = 1 -> incl I Z /\ incl Z R /\ msep_model g [x] [y] Z = Some true.
+Proof. exact C11.Proofs.is_minsep_sound_partial. Qed.
+Print Assumptions is_minsep_sound_partial.
+
+(* every graph of the domain of C01 on at most 3 nodes, every pair x <> y, every I inside R inside V - {x,y}, every Z:
+   None <-> no separator between I and R; Some Z -> Z is a separator between I and R none of whose proper subsets
+   containing I separates; is_minsep_model = 1 exactly for those sets.  Separation is msep (m-connecting paths). *)
+Theorem minsep_bounded_3 : forall n ks, n <= 3 -> in_admg n ks \/ in_anc n ks ->
+  minsep_correct_on n ks /\ is_minsep_exact_on n ks.
+Proof. exact C11.Bounded_3.minsep_bounded_3. Qed.
+Print Assumptions minsep_bounded_3.
+
+(* the same for minsep_model on every DAG with 4 nodes *)
+Theorem minsep_bounded_dag_4 : forall ks, in_dag 4 ks -> minsep_correct_on 4 ks.
+Proof. exact C11.Bounded_4.minsep_bounded_dag_4. Qed.
+Print Assumptions minsep_bounded_dag_4.
+
+(* the code as it stood (before fix proposals C11-02, C11-03) violates the property *)
+Theorem minsep_asis_unsound_refuted :
+  exists g x y I R Z, minsep_asis false g x y I R = Some Z /\ msep_dec g [x] [y] Z = false.
+Proof. exact C11.Refuted.minsep_asis_unsound_refuted. Qed.
+Print Assumptions minsep_asis_unsound_refuted.
+
+Theorem minsep_asis_incomplete_refuted :
+  exists g x y I R Z, minsep_asis true g x y I R = None /\ subsetb I Z = true /\ subsetb Z R = true /\
+                      msep_dec g [x] [y] Z = true.
+Proof. exact C11.Refuted.minsep_asis_incomplete_refuted. Qed.
+Print Assumptions minsep_asis_incomplete_refuted.
